@@ -23,6 +23,11 @@ PROBES = {
     "mixed": {"values": [["int", 1], ["str", "a"], ["none"]], "dtype": "object"},
     "url": {"values": [["str", "http://a.b/c"], ["none"]], "dtype": "object"},
     "cplx": {"values": [["complex", 1, 0], ["complex", 2, 0]], "dtype": "complex128"},
+    # inputs whose reading is under-determined: a hint remembered from an earlier call (a date format, a decimal mark,
+    # a Windows / POSIX flavour) would steer them
+    "str_dt_ambig": {"values": [["str", "01/02/2020"], ["str", "03/04/2020"]], "dtype": "object"},
+    "str_dt_ambig2": {"values": [["str", "01-02-2020 10:00"], ["str", "03-04-2020 11:30"]], "dtype": "str"},
+    "path_ambig": {"values": [["str", "/usr/lib"], ["str", "/tmp/x"]], "dtype": "object"},
 }
 
 
@@ -43,7 +48,8 @@ def gen_history(rng, n):
             op["recipe"] = G.gen_column(rng)
         if k in ("numpy", "pylist"):
             pool = rng.choice([[1.0, 2.0, float("inf")], [float("-inf"), 1.5], [float("nan"), float("inf"), 3.0], [1.0, 2.0], [1.5, float("nan")],
-                               [1, 2, 3], ["1.5", "2"], ["a", "b"], [True, False], ["1+0j", "2+0j"], ["inf", "1"], [0.0, -0.0], [1e308, -1e308]])
+                               [1, 2, 3], ["1.5", "2"], ["a", "b"], [True, False], ["1+0j", "2+0j"], ["inf", "1"], [0.0, -0.0], [1e308, -1e308],
+                               ["13/01/2020", "25/12/2019"], ["2020.01.13", "2019.12.25"], ["13-01-2020 08:00"]])
             op["vals"] = pool
             op["dtype"] = "auto" if k == "numpy" and rng.random() < 0.7 else "object"
         if k == "edit":
@@ -96,6 +102,10 @@ def run(tier, seed):
              {"op": "create_many", "ts": "standard", "n": 150},
              {"op": "numpy", "ts": "standard", "vals": [1.0, 2.0, 3.0], "dtype": "auto"},
              {"op": "pylist", "ts": "standard", "vals": ["1.5", "2.5"]},
+             {"op": "infer", "ts": "standard", "recipe": {"values": [["str", "13/01/2020"], ["str", "25/12/2019"]], "dtype": "object", "index": "default", "name": None}},
+             {"op": "cast", "ts": "complete", "recipe": {"values": [["str", "13-01-2020 08:00"], ["str", "25-12-2019 09:15"]], "dtype": "str", "index": "default", "name": None}},
+             {"op": "infer", "ts": "complete", "recipe": {"values": [["str", "C:\\Users\\a"], ["str", "D:\\x"]], "dtype": "object", "index": "default", "name": None}},
+             {"op": "numpy", "ts": "standard", "vals": ["13/01/2020", "25/12/2019"], "dtype": "object"},
              {"op": "infer", "ts": "standard", "recipe": {"values": [["float", 1.0], ["float", 2.0]], "dtype": "float64", "index": "default", "name": None}}]
     jobs.append(({"history": fixed, "probes": PROBES}, 1))
     jobs.append(({"history": list(reversed(fixed[:-4])) + fixed[-4:], "probes": PROBES}, "random"))
